@@ -151,8 +151,10 @@ fn run_planned(cfg: &Cfg, want: &[Vec<u8>], plan: Box<dyn FnMut(usize) -> usize 
         let o = spec(cfg);
         let st = PlannedStream { data: o.content(), pos: 0, plan: Arc::new(Mutex::new(plan)), armed: armed.clone(), reads: reads.clone(), short: short.clone() };
         let url = url::Url::parse(&o.location).unwrap();
-        let desc = ObjectDesc::create_from_stream(Box::new(st), &o.ctype, &url, true, o.transfer_config()?).map_err(|e| e.0.to_string())?;
+        // armed from the start: the reads made while the descriptor is created (Content-MD5, length)
+        // are chunked too
         armed.store(true, Ordering::SeqCst);
+        let desc = ObjectDesc::create_from_stream(Box::new(st), &o.ctype, &url, true, o.transfer_config()?).map_err(|e| e.0.to_string())?;
         emit(cfg, desc)
     });
     obs.reads = reads.load(Ordering::SeqCst);
